@@ -48,7 +48,7 @@ TRANSFORMS = {
 }
 SURFACE_Z = {"zero": None, "plane": lambda x, y: x + 0.5 * y}
 KINDS = (["mpl1"] * 5 + ["plotly1"] * 2 + ["ascii", "ascii_map"] + ["mpl2"] * 4 + ["polar"] * 2 + ["mpl3d"] * 2
-         + ["pair", "collection"] + ["ticks"] * 4 + ["refuse"] * 2 + ["backend"] + ["data"] * 2)
+         + ["pair"] + ["collection"] * 3 + ["ticks"] * 4 + ["refuse"] * 2 + ["backend"] + ["data"] * 2)
 BAD_1D = ["map", "image", "bar3d", "polar_map", "nokind", "nobackend", "bokeh", "plotly_map", "ascii_map",
           "errors_cumulative_bar", "errors_cumulative_line", "errors_cumulative_scatter"]
 BAD_2D = ["bar", "line", "step", "scatter", "fill", "hbar", "plotly_bar", "nokind", "nobackend", "bokeh"]
@@ -428,12 +428,13 @@ class C20:
 
     def _gen_collection(self, rng):
         pairs, t = gen1.rising_bins(rng)
-        n = rng.randint(1, 3)
+        n = rng.choice([1, 2, 2, 3, 3])
         inits = [rand_hist_op(rng, pairs, out=i) for i in range(n)]
         for i in inits:
             i["binning"] = copy.deepcopy(inits[0]["binning"])
             i["keep"] = True
-        p = rng.choice(["bar", "line", "scatter", "step", "plotly_bar", "plotly_line"])
+        # (every member of a collection must be drawn with the same options: the plotly traces are the ones built per member)
+        p = rng.choice(["bar", "line", "scatter", "step", "plotly_bar", "plotly_line", "plotly_line"])
         if t["gapped"] and p == "step":
             p = "bar"
         opt = {"plot": p, "density": rng.random() < 0.3, "cumulative": rng.random() < 0.3, "title": rng.choice([None, "Coll title"]),
